@@ -28,7 +28,7 @@ ASSUME = [
 
 PLAN = {
     # tier: (evaluations per class, shards)
-    'quick': {'C08': (7500, 3), 'C09': (8000, 3), 'C16': (8000, 3)},
+    'quick': {'C08': (20000, 6), 'C09': (16000, 6), 'C16': (24000, 6)},
     'thorough': {'C08': (280000, 24), 'C09': (300000, 24), 'C16': (300000, 24)},
 }
 CLS = {'C08': 'c08', 'C09': 'c09', 'C16': 'c16'}
